@@ -37,6 +37,14 @@ FILES = {
     "big/h1_FAILREAD.bin": (BIGH, True), "big/h2_FAILREAD.bin": (BIGH, True),
 }
 LINKS = {"d6/l_FAILLINK": ("d1/a.bin", True), "d6/ok_link": ("d3/c1.bin", False)}
+K = bytes((i * 11 + 1) % 239 for i in range(150 * 1024))
+K2 = bytes((i * 17 + 2) % 233 for i in range(150 * 1024))
+FILES.update({"d8/mm_name.bin": (K, False), "d8/copy.bin": (K, False), "d9/mm_name.bin": (K2, False), "d9/copy.bin": (K2, False)})
+# (a read error of the data is a property of the inode, not of one name: only name-level faults - open refused, name vanished - are
+# injected on single names of a hard-link set)
+# other names (hard links) of healthy files that cannot be opened / have vanished: the healthy names must be grouped as without them
+HARDLINKS = {"d8/aa_FAILOPEN.bin": ("d8/mm_name.bin", True), "d8/zz_FAILOPEN.bin": ("d8/mm_name.bin", True),
+             "d9/aa_FAILOPEN.bin": ("d9/mm_name.bin", True)}
 
 
 def build(root, with_faulty):
@@ -58,6 +66,10 @@ def build(root, with_faulty):
         p = os.path.join(root, rel)
         os.makedirs(os.path.dirname(p), exist_ok=True)
         os.symlink(os.path.join(root, target), p)
+    for rel, (target, faulty) in HARDLINKS.items():
+        if faulty and not with_faulty:
+            continue
+        os.link(os.path.join(root, target), os.path.join(root, rel))
 
 
 def groups(binary, roots, base, opts, env, stdin_roots=False):
@@ -161,6 +173,34 @@ def main():
                          "what": "files whose transform failed are grouped, or the run did not end with a report", "rc": rc, "groups": names, "stderr": err[-200:]})
         elif "bad1.dat" not in err or "bad2.dat" not in err:
             devs.append({"options": ["--transform", "c15filter"], "child": mode, "what": "no warning for a file whose transform failed"})
+    # one name of a hard-link set cannot be opened (or has vanished): the other names of the same file are healthy entries and must be
+    # grouped with their duplicates as if the failing name had not been there.  Which name of the set is tried first depends on the
+    # directory order and on whether the file system answers extent queries, so the scenario is built with the failing name created
+    # first and created last, in the work directory and on tmpfs when there is one
+    bases = [d] + (["/dev/shm"] if os.path.isdir("/dev/shm") and os.access("/dev/shm", os.W_OK) else [])
+    for bdir in bases:
+        for marker in ("FAILOPEN", "VANISHED"):
+            for first in ("faulty", "healthy"):
+                hl = os.path.join(bdir, "c15hl_%d_%s_%s" % (os.getpid(), marker[:2].lower(), first[0]))     # (no marker in the directory name)
+                shutil.rmtree(hl, ignore_errors=True)
+                os.makedirs(os.path.join(hl, "r"))
+                try:
+                    names = ["n_%s.bin" % marker, "m_healthy.bin"] if first == "faulty" else ["m_healthy.bin", "n_%s.bin" % marker]
+                    with open(os.path.join(hl, "r", names[0]), "wb") as f:
+                        f.write(K)
+                    os.link(os.path.join(hl, "r", names[0]), os.path.join(hl, "r", names[1]))
+                    with open(os.path.join(hl, "r", "copy.bin"), "wb") as f:
+                        f.write(K)
+                    for opts in ([], ["--transform", "cat"], ["--threads", "1"]):
+                        rc, got, err = groups(binary, [os.path.join(hl, "r")], os.path.join(hl, "r"), opts, dict(base_env, LD_PRELOAD=shim))
+                        runs += 1
+                        together = any("m_healthy.bin" in g and "copy.bin" in g for g in (got or []))
+                        if rc != 0 or not together:
+                            devs.append({"options": opts, "file_system": "tmpfs" if bdir == "/dev/shm" else "work dir",
+                                         "what": "one name of a hard-link set fails (%s, created %s): the healthy name of the same file is not grouped with its copy" % (
+                                             marker, "first" if first == "faulty" else "last"), "groups": got, "rc": rc})
+                finally:
+                    shutil.rmtree(hl, ignore_errors=True)
     # an ignore file that cannot be loaded affects nothing but itself: the rules inherited from the parent directories keep applying
     # below it (the nested file is unreadable as text: invalid UTF-8; or a directory stands where the file is expected)
     for kind in ("invalid-utf8", "directory"):
